@@ -461,6 +461,61 @@ func init() {
 		return Iface{}
 	})
 
+	// ---------- query pagination (modelled as: walk [prefix] in key order, keep if predicate, transform) ----------
+	const Q = "github.com/cosmos/cosmos-sdk/types/query."
+	reg(Q+"WithCollectionPaginationPairPrefix", func(e *Exec, fn *ssa.Function, a []Value) Value {
+		return &Opaque{name: "pair-prefix", data: a[0]}
+	})
+	paginate := func(e *Exec, fn *ssa.Function, coll Value, pageReq Value, pred Value, transform Value, opts Value) Value {
+		if p, ok := pageReq.(Ptr); ok && p != nil {
+			panic(abortRun{kind: "unsupported", msg: "pagination request other than nil (page slicing is inside the SDK paginator, outside the claim)"})
+		}
+		c := e.coll(coll, "CollectionPaginate")
+		var prefix Value
+		if os, ok := opts.(Slice); ok {
+			for _, o := range os.data {
+				if op, isO := o.(*Opaque); isO && op.name == "pair-prefix" {
+					prefix = op.data.(Value)
+				}
+			}
+		}
+		resT := fn.Signature.Results().At(0).Type()
+		out := Slice{data: []Value{}}
+		snapshot := append([]collEntry(nil), c.entries...)
+		for _, en := range snapshot {
+			if prefix != nil {
+				if !e.branch(e.valEq(en.key.(*PairVal).a, prefix)) {
+					continue
+				}
+			}
+			k, v := deepCopy(en.key, map[Ptr]Ptr{}), deepCopy(en.val, map[Ptr]Ptr{})
+			if pred != nil {
+				r := e.call(pred, []Value{k, v}, nil).(Tuple)
+				if errI := r[1].(Iface); errI.t != nil {
+					return Tuple{zeroValue(resT), Ptr(nil), errI}
+				}
+				if !e.branch(r[0].(*Term)) {
+					continue
+				}
+			}
+			r := e.call(transform, []Value{k, v}, nil).(Tuple)
+			if errI := r[1].(Iface); errI.t != nil {
+				return Tuple{zeroValue(resT), Ptr(nil), errI}
+			}
+			out.data = append(out.data, r[0])
+		}
+		if len(out.data) == 0 {
+			out = Slice{null: true}
+		}
+		return Tuple{out, Ptr(nil), Iface{}}
+	}
+	reg(Q+"CollectionPaginate", func(e *Exec, fn *ssa.Function, a []Value) Value {
+		return paginate(e, fn, a[1], a[2], nil, a[3], a[4])
+	})
+	reg(Q+"CollectionFilteredPaginate", func(e *Exec, fn *ssa.Function, a []Value) Value {
+		return paginate(e, fn, a[1], a[2], a[3], a[4], a[5])
+	})
+
 	// ---------- sdk.Context / events ----------
 	const T = "github.com/cosmos/cosmos-sdk/types."
 	reg(pkgND+".NewContext", func(e *Exec, fn *ssa.Function, a []Value) Value {
